@@ -148,7 +148,14 @@ func (root *Root) resolve(
 	switch tt := t.(type) {
 	case *List:
 		result, ea = root.resolveList(obj, vars, field, tt, depth-1)
-	case *Object, *Schema, *Interface, *uuSchema:
+	case *Object, *Schema, *uuSchema:
+		result, ea = root.resolveFieldSels(obj, vars, field, t, depth-1)
+	case *Interface:
+		// Resolve as the object's concrete type when the Go type of the
+		// object is bound to a GraphQL object type.
+		if ct := root.getReflectType(reflect.TypeOf(obj)); ct != nil {
+			t = ct
+		}
 		result, ea = root.resolveFieldSels(obj, vars, field, t, depth-1)
 	case *NonNull:
 		result, ea = root.resolve(obj, vars, field, tt.Base, depth)
@@ -713,10 +720,38 @@ func (root *Root) resolveInline(
 	result map[string]interface{},
 	depth int) (ea []error) {
 
-	if sel.Condition == nil || sel.Condition == t {
+	if condApplies(sel.Condition, t) {
 		ea = root.resolveSels(obj, vars, sel.Sels, t, result, depth)
 	}
 	return
+}
+
+// condApplies returns true if a fragment with the type condition cond applies
+// to an object of type t: there is no condition, t is the condition, t
+// implements the condition or t is a member of the condition.
+func condApplies(cond, t Type) bool {
+	if cond == nil || cond == t {
+		return true
+	}
+	ot, _ := t.(*Object)
+	if ot == nil {
+		return false
+	}
+	switch tc := cond.(type) {
+	case *Interface:
+		for _, i := range ot.Interfaces {
+			if i == cond {
+				return true
+			}
+		}
+	case *Union:
+		for _, m := range tc.Members {
+			if m == t {
+				return true
+			}
+		}
+	}
+	return false
 }
 
 func (root *Root) resolveFragRef(
@@ -727,7 +762,7 @@ func (root *Root) resolveFragRef(
 	result map[string]interface{},
 	depth int) (ea []error) {
 
-	if sel.Fragment.Condition == nil || sel.Fragment.Condition == t {
+	if condApplies(sel.Fragment.Condition, t) {
 		ea = root.resolveSels(obj, vars, sel.Fragment.Sels, t, result, depth)
 		if 0 < len(ea) {
 			Errors(ea).in(fmt.Sprintf("fragment at %d:%d", sel.Line(), sel.Column()))
